@@ -67,6 +67,11 @@ def build_network(name, idx):
     return net
 
 
+def net_pts(job, eid):
+    dx, dy = job.get('moved') or (0.0, 0.0)
+    return [(x + dx, y + dy) for x, y in NETS[job['net']][eid]]
+
+
 class RecordingHMM:
     """cut: the candidate lists are complete before decoding starts; the decoder is replaced by a no-op in the candidate jobs"""
 
@@ -146,6 +151,10 @@ class C10(Check):
         if tier != 'quick':
             js.append(dict(kind='select', net='road', idx='r51', radius=5.5, T=1))
             js.append(dict(kind='select', net='grid', idx='coarse', radius=6.0, T=1))
+        # leftover-state probe: a track is matched, the network's edge geometries are translated in place and its index rebuilt, then the symbolic fix is matched
+        for n in (('tri', 'dup') if tier == 'quick' else ('tri', 'bend', 'dup', 'L')):
+            for strip in range(4):
+                js.append(dict(kind='cand', net=n, idx='r51', radius=5.5, strip=strip, moved=[2.0, 3.0]))
         js.sort(key=lambda j: 0 if j['net'] in ('grid', 'road') else 1)      # scale probes first: the thorough tier may run into its budget on the catalogue networks
         return js
 
@@ -162,7 +171,7 @@ class C10(Check):
         for pts in NETS[job['net']].values():
             for (ax, ay), (bx, by) in zip(pts, pts[1:]):
                 if ax == bx:
-                    xs.add(float(ax))
+                    xs.add(float(ax) + (job.get('moved') or (0.0, 0.0))[0])
         return z3.Or([zreal(px) == x for x in xs]) if xs else z3.BoolVal(False)
 
     def _fix(self, eng, inp, job):
@@ -184,6 +193,26 @@ class C10(Check):
         if job.get('T') == 2:
             fixes.append(Obs(ENUCoords(5.0, 1.0, 0.0), ObsTime.readUnixTime(110.0)))
         tr = Track(fixes)
+        if job.get('moved'):
+            from tracklib.core.spatial_index import SpatialIndex
+            warm = Track([Obs(ENUCoords(1.0, 0.5, 0.0), ObsTime.readUnixTime(10.0)), Obs(ENUCoords(3.0, 1.5, 0.0), ObsTime.readUnixTime(20.0))])
+            mp.mapOnNetwork(warm, net, search_radius=job['radius'], debug=False)
+            dx, dy = job['moved']
+            done = set()
+            for eid in net.EDGES:
+                g = net.EDGES[eid].geom
+                for i in range(g.size()):
+                    pos = g.getObs(i).position
+                    if id(pos) not in done:
+                        done.add(id(pos))
+                        pos.translate(dx, dy, 0)
+            for nid in net.NODES:
+                pos = net.NODES[nid].coord
+                if id(pos) not in done:
+                    done.add(id(pos))
+                    pos.translate(dx, dy, 0)
+            res, margin = INDEXES[job['idx']]
+            net.spatial_index = SpatialIndex(net, resolution=list(res), margin=margin, verbose=False)
         before = [(o, o.position, o.timestamp, o.position.getX(), o.position.getY()) for o in fixes]
         if job.get('multi'):
             from tracklib.core import TrackCollection
@@ -201,7 +230,7 @@ class C10(Check):
         if not (isinstance(e, int) and 0 <= e < len(NETS[job['net']])):
             ctx.fail('a candidate does not refer to an existing edge', classes=cls)
             return False
-        pts = NETS[job['net']][net.getEdgeId(e)]
+        pts = net_pts(job, net.getEdgeId(e))
         xz, yz = zreal(p.getX()), zreal(p.getY())
         legs = []
         for (ax, ay), (bx, by) in zip(pts, pts[1:]):
@@ -298,7 +327,7 @@ class C10(Check):
                 continue
             if not (isinstance(e, int) and 0 <= e < len(NETS[job['net']])):
                 return dict(violation='%s: candidate names edge %r' % (desc, e), outputs=out)
-            pts = NETS[job['net']][net.getEdgeId(e)]
+            pts = net_pts(job, net.getEdgeId(e))
             total = sum(math.hypot(bx - ax, by - ay) for (ax, ay), (bx, by) in zip(pts, pts[1:]))
             off = on_polyline_concrete(pts, p.getX(), p.getY())
             if off > 1e-6:
